@@ -2,6 +2,7 @@ package rules
 
 import (
 	"fmt"
+	"strings"
 
 	"golang.org/x/tools/go/ssa"
 
@@ -26,6 +27,7 @@ func init() {
 			c17UnsafeViews(c)
 			configReadOnlyRules(c, "C11")
 			c11DebugPassthrough(c)
+			c11HeadEnd(c)
 		},
 	})
 }
@@ -281,4 +283,146 @@ func c11DebugPassthrough(c *Ctx) {
 	if !found {
 		c.R.Unknown(rule, rule+"/anchor", c.P.FuncPos(f), "DebugUpgrader.Upgrade no longer calls an in-module Upgrade")
 	}
+	// must-pass-through: whatever the sniffing of the request or response runs into, the wrapped
+	// handshake itself is always attempted (the sniffer is stricter than the handshake parser)
+	for _, w := range [][3]string{{"DebugUpgrader", "Upgrade", "Upgrade"}, {"DebugDialer", "Dial", "Dial"}} {
+		fn := c.method(rule, wsutil, w[0], w[1])
+		if fn == nil {
+			continue
+		}
+		var callBlock *ssa.BasicBlock
+		callIdx := -1
+		for _, b := range fn.Blocks {
+			for i, in := range b.Instrs {
+				if ci, ok := in.(ssa.CallInstruction); ok {
+					if callee := ci.Common().StaticCallee(); callee != nil && callee.Name() == w[2] && callee.Package() != nil && callee.Package().Pkg.Path() == ws {
+						if _, isDefer := in.(*ssa.Defer); !isDefer {
+							callBlock, callIdx = b, i
+						}
+					}
+				}
+			}
+		}
+		key := rule + "/" + w[0] + "." + w[1] + ":always-runs-the-handshake"
+		if callBlock == nil {
+			c.R.Unknown(rule, key, c.P.FuncPos(fn), "the call of ws."+w[2]+" was not found")
+			continue
+		}
+		bad := ""
+		for _, b := range fn.Blocks {
+			if b == fn.Recover {
+				continue
+			}
+			for i, in := range b.Instrs {
+				if _, ok := in.(*ssa.Return); !ok {
+					continue
+				}
+				if b == callBlock && i > callIdx {
+					continue
+				}
+				if b != callBlock && callBlock.Dominates(b) {
+					continue
+				}
+				bad = c.P.Pos(in.Pos())
+			}
+		}
+		if bad == "" {
+			c.R.OK(rule, key, c.P.FuncPos(fn), "every return is reached through the wrapped handshake")
+		} else {
+			c.R.Fail(rule, key, bad, "the debug wrapper returns without running the wrapped handshake: a request or response that the sniffer (net/http) refuses but the handshake parser accepts fails here and succeeds without the wrapper")
+		}
+	}
+}
+
+// c11HeadEnd evaluates wsutil.headEndIndex on every byte string over
+// {'a', '\r', '\n'} up to length 7 and compares it with the definition the
+// handshake parser uses (lines end in "\n", optionally preceded by "\r"; the
+// head ends after the first empty line that follows a line end).
+func c11HeadEnd(c *Ctx) {
+	const rule = "C11.head-end-index"
+	c.R.Rule(rule, 1, "headEndIndex finds the end of the HTTP head exactly where readLine-based parsing does, for \\n and \\r\\n line ends in any mixture")
+	f := c.fn(rule, wsutil, "headEndIndex")
+	if f == nil {
+		return
+	}
+	alphabet := []byte{'a', '\r', '\n'}
+	var inputs []string
+	var gen func(prefix string, left int)
+	gen = func(prefix string, left int) {
+		inputs = append(inputs, prefix)
+		if left == 0 {
+			return
+		}
+		for _, ch := range alphabet {
+			gen(prefix+string(ch), left-1)
+		}
+	}
+	gen("", 7)
+	ref := func(p string) int {
+		for i := 0; i < len(p); i++ {
+			if p[i] != '\n' {
+				continue
+			}
+			// p[i] ends a line; is the next line empty?
+			rest := p[i+1:]
+			if strings.HasPrefix(rest, "\n") {
+				return i + 2
+			}
+			if strings.HasPrefix(rest, "\r\n") {
+				return i + 3
+			}
+		}
+		return -1
+	}
+	results := make([]string, len(inputs))
+	parallel(len(inputs), func(i int) {
+		in := inputs[i]
+		m := c.machine()
+		m.Models["bytes.Index"] = func(cl *fold.Call) fold.Val {
+			a, ok1 := concreteBytes(cl.M, cl.Args[0])
+			b, ok2 := concreteBytes(cl.M, cl.Args[1])
+			if !ok1 || !ok2 {
+				return fold.Int{Lo: -1, Hi: 1 << 20}
+			}
+			return fold.K(int64(strings.Index(string(a), string(b))))
+		}
+		m.Models["bytes.IndexByte"] = func(cl *fold.Call) fold.Val {
+			a, ok := concreteBytes(cl.M, cl.Args[0])
+			ch, _ := cl.Args[1].(fold.Int)
+			if !ok || !ch.IsConst() {
+				return fold.Int{Lo: -1, Hi: 1 << 20}
+			}
+			return fold.K(int64(strings.IndexByte(string(a), byte(ch.Const()))))
+		}
+		ps := m.Explore(f, func(mm *fold.Machine) []fold.Val {
+			el := make([]fold.Val, len(in))
+			for j := range el {
+				el[j] = fold.K(int64(in[j]))
+			}
+			return []fold.Val{mm.NewBytes("p", el)}
+		}, nil)
+		if len(ps) != 1 || ps[0].Abort != "" {
+			why := fmt.Sprintf("%d paths", len(ps))
+			if len(ps) > 0 {
+				why = ps[0].Abort
+			}
+			results[i] = fmt.Sprintf("undecided: headEndIndex(%q): %s", in, why)
+			return
+		}
+		if ps[0].Panic {
+			results[i] = fmt.Sprintf("headEndIndex(%q) panics: %s", in, fold.Show(ps[0].PanicV))
+			return
+		}
+		if got, want := fold.Show(ps[0].Ret), fmt.Sprint(ref(in)); got != want {
+			results[i] = fmt.Sprintf("headEndIndex(%q) = %s, the head ends at %s", in, got, want)
+		}
+	})
+	var problems []string
+	for _, r := range results {
+		if r != "" {
+			problems = append(problems, r)
+		}
+	}
+	c.R.AddCells(len(inputs))
+	c.verdict(rule, rule+"/headEndIndex", c.P.FuncPos(f), uniq(problems), fmt.Sprintf("%d byte strings over {a, CR, LF} up to length 7", len(inputs)))
 }
